@@ -234,6 +234,12 @@ func (li locInfo) regionSort(k int) *Sort {
 func (li locInfo) key(k int) string { return li.rootKey + "#" + li.leaves[k].path }
 
 func (st *State) load(x *Exec, p SV) SV {
+	if p.p != nil && len(p.p.steps) == 0 {
+		if id, ok := x.errGlobals[p.p.rootKey]; ok {
+			// package-level error sentinel assigned once in init: a constant non-nil value
+			return SV{ty: p.p.rootTy, l: []*Term{mkBV(int64(0x70000000+id), 32), mkBV(int64(id), 64)}}
+		}
+	}
 	li := resolveLoc(p)
 	base := p.l[0]
 	out := make([]*Term, 0, li.hi-li.lo)
